@@ -258,6 +258,8 @@ func (ex *Exec) resetPath(prefix []int64) {
 	ex.guard = nil
 	ex.spec = 0
 	ex.rngCache = map[int]rng{}
+	ex.unlockedReads = map[interface{}]bool{}
+	ex.writtenTagged = map[interface{}]bool{}
 	ex.varRng = map[int]rng{}
 	ex.noMerge = os.Getenv("VP_NOMERGE") != ""
 }
